@@ -23,6 +23,24 @@ CLAIMED = {
  "C06": ("bounded-exhaustive enumeration of all filter/name pairs up to four levels plus breadth-first search over subscribe/unsubscribe/retain histories of the real MemTopics against a matcher written from MQTT 3.1.1 section 4.7",
          "All 780 filter strings (valid and invalid) and all topic names of 1..4 levels over {a, b, empty, +, #}: each valid filter alone in a fresh store against every name at every subscription/publish QoS, each invalid filter must be rejected without effect, unsubscribe must remove it, and the same for the retained relation; then all subscribe/unsubscribe/retain sequences over two subscribers to depth 3 and BFS with de-duplication on the model state to depth 5-7, every history followed by a full probe of names and filters.",
          "Level alphabet of two literals; names starting with '$' excluded (the property excludes them). One listed finding (empty levels, pinned by the repository's tests) is recognised exactly: only a mismatch that equals the pinned behaviour counts as that finding.", "DESIGN §5 C06"),
+ "C01": ("explicit-state breadth-first search over client histories replayed on the real broker, compared with a sequential broker model after every action",
+         "All histories of connect/subscribe/unsubscribe/publish (QoS 0-2, payloads 0..8000 bytes and at the packet-size limit of both ring configurations)/disconnect/cut by two raw clients plus an in-process subscriber and publisher, de-duplicated on model + implementation state (session store, subscription tree, retained tree, ring wrap counts) to depth 6/8, and all sequences without de-duplication on a populated broker to depth 3/4; every receiver's packets are compared with the model: at least one and at most one copy per matching held subscription, topic and payload identical, QoS in the allowed set, nothing for anyone else.",
+         "Every history runs on a fresh real broker (real accept loop and three goroutines per connection, in-memory network, virtual time) under the default non-preemptive schedule with exact quiescence after each action; interleavings of concurrent clients are the business of the SCHED checks. The sequential broker model and the reference codec are trusted. Two live connections with one client id and topics starting with '$' are excluded.", "DESIGN §5 C01"),
+ "C07": ("bounded-exhaustive enumeration of SUBSCRIBE/UNSUBSCRIBE packets, each replayed in a probe history on the real broker; plus all orders of subscription changes and publishes",
+         "Every SUBSCRIBE with one entry over 8 filters (3 invalid) x QoS 0-3, pairs and triples, lists of 4/5/8/16 entries with an invalid entry at every position, out-of-range QoS, repeated and overlapping filters, under server QoS caps 2 and 1; each must be answered by exactly one SUBACK (same id, one code per entry, min(requested, cap) or 0x80) or by closing; probe publishes before and after the matching UNSUBSCRIBE must be delivered according to exactly the granted entries.",
+         "Every history runs on a fresh real broker (real accept loop and three goroutines per connection, in-memory network, virtual time) under the default non-preemptive schedule with exact quiescence after each action; interleavings of concurrent clients are the business of the SCHED checks. The sequential broker model and the reference codec are trusted. Two live connections with one client id and topics starting with '$' are excluded.", "DESIGN §5 C07"),
+ "C08": ("explicit-state breadth-first search over retained-publish/subscribe histories replayed on the real broker, compared with a sequential retained-store model",
+         "All histories of retained / plain / empty-payload publishes at QoS 0-2 on three topics (one 8000-byte payload), ring-wrapping filler, single and multi-filter subscriptions with literal and wildcard filters, in-process Publish/Subscribe, de-duplicated on model + implementation state to depth 5/7 and all sequences to depth 3/4: each new subscription gets exactly the matching retained messages with retain=1, QoS min(stored, granted) and identical payload; live forwards carry retain=0.",
+         "Every history runs on a fresh real broker (real accept loop and three goroutines per connection, in-memory network, virtual time) under the default non-preemptive schedule with exact quiescence after each action; interleavings of concurrent clients are the business of the SCHED checks. The sequential broker model and the reference codec are trusted. Two live connections with one client id and topics starting with '$' are excluded. The concurrent part (retained update racing a new subscription) belongs to the schedule-exploration checks.", "DESIGN §5 C08"),
+ "C09": ("explicit-state breadth-first search over connect/end-cause/reconnect histories (virtual time for keep-alive expiry) replayed on the real broker",
+         "All histories to depth 6/8 of five CONNECT variants of one client id (no will; wills with QoS 0-2, retain, two topics, empty/short/200-byte payload; CleanSession 0/1), the end causes DISCONNECT, cut, garbage packet and keep-alive expiry, ordinary traffic, and a late subscriber: a witness subscribed to '#' must receive exactly the ending connection's will after every abnormal end, nothing after DISCONNECT, and retained wills must reach the late subscriber.",
+         "Every history runs on a fresh real broker (real accept loop and three goroutines per connection, in-memory network, virtual time) under the default non-preemptive schedule with exact quiescence after each action; interleavings of concurrent clients are the business of the SCHED checks. The sequential broker model and the reference codec are trusted. Two live connections with one client id and topics starting with '$' are excluded.", "DESIGN §5 C09"),
+ "C10": ("explicit-state breadth-first search over connect(CleanSession 0/1)/subscribe/unsubscribe/disconnect/cut histories over two client ids replayed on the real broker",
+         "All histories to depth 8/11 over two client ids on two connections with a witness publisher, de-duplicated on model + implementation state: SessionPresent in every CONNACK, SUBACK codes, and the deliveries of probe publishes (restored subscriptions at their QoS without re-subscribing, nothing after a clean session ended, no cross-talk between ids); thorough also under the server QoS cap 1.",
+         "Every history runs on a fresh real broker (real accept loop and three goroutines per connection, in-memory network, virtual time) under the default non-preemptive schedule with exact quiescence after each action; interleavings of concurrent clients are the business of the SCHED checks. The sequential broker model and the reference codec are trusted. Two live connections with one client id and topics starting with '$' are excluded.", "DESIGN §5 C10"),
+ "C11": ("bounded-exhaustive enumeration of first packets (all types, CONNECT field product, truncations and short frames), each replayed with follow-up packets / cut / connect timeout on the real broker under both authenticators",
+         "Every packet type as first packet, CONNECT with each protocol name x level, reserved and will flag inconsistencies, client identifiers (empty with CleanSession 0/1, 23/33 characters, control characters), credentials, every truncation of a valid CONNECT (then cut, or silence until the virtual connect timeout) and every complete frame that ends early; followed by SUBSCRIBE '#' and a retained PUBLISH on the unaccepted connection: CONNACK code per the statement, connection closed, a witness receives nothing, subscription/retained/session state unchanged, and no library goroutine panics.",
+         "Every history runs on a fresh real broker (real accept loop and three goroutines per connection, in-memory network, virtual time) under the default non-preemptive schedule with exact quiescence after each action; interleavings of concurrent clients are the business of the SCHED checks. The sequential broker model and the reference codec are trusted. Two live connections with one client id and topics starting with '$' are excluded. Malformed CONNECTs the statement does not classify (user/password flag without the field) are accepted either way.", "DESIGN §5 C11"),
 }
 
 NOT_YET = "check not built yet in this session; planned per DESIGN.md §5 (same engine)"
